@@ -1,12 +1,14 @@
 import Hive.Base.Proto
 import Hive.Model.SerixJson
+import Hive.Spec.SerixJsonCanon
 /-!
 # Line protocol of the C01b driver (JSON/map form of serix)
 
 Requests (one per line, s-expressions; strings are hex-encoded UTF-8, `-` for the empty string):
 
 * `def SCHEMA` — selects the type of the case; answer `ok x=B` with `B` = `JsonExpressible`.
-* `enc V VALUE` — `mapEncode` with validation `V`; answer `R vx=B` where `B` = `ValExpressible` and
+* `enc V VALUE` — `mapEncode` with validation `V`; answer `R vx=B wt=B' c=CANON` where `B` = `ValExpressible`,
+  `B'` = `WellTyped`, `CANON` = `canon` of the value (the documented result of decoding the encoding) and
   `R` = `ok JSON` | `err` | `panic` | `illtyped` (`fail` for both `err` and `panic` when the type contains
   a Go map: which entry fails first depends on the iteration order).  Objects are printed in the order the model emits
   them unless the type contains a Go map, in which case every object is printed with its members
@@ -267,7 +269,7 @@ def stepLine (s : PSt) (toks : List String) : PSt × String :=
           | .error .err => if t.hasMap then "fail" else "err"
           | .error .panic => if t.hasMap then "fail" else "panic"
           | .error .illTyped => "illtyped"
-        ({ s with ftab := tab }, s!"{r} vx={vx}")
+        ({ s with ftab := tab }, s!"{r} vx={vx} wt={b01 (wt fc t val)} c={showVal (canon fc t val)}")
       | none => (s, "bad-value")
     | _, _ => (s, "bad-enc")
   | "ftab" :: rest =>
